@@ -34,7 +34,7 @@ def build(tier):
 
 def gen_cases(tier, seed):
     rng = random.Random(seed)
-    n = {"quick": (60, 30, 30, 40), "search": (120, 50, 50, 80), "thorough": (500, 200, 200, 400)}[tier]
+    n = {"quick": (60, 30, 30, 40), "search": (120, 50, 50, 80), "thorough": (1400, 500, 500, 1000)}[tier]
     cases = []
     for kind, cnt in zip(["reuse", "multi", "info", "cctx"], n):
         for _ in range(cnt):
